@@ -70,7 +70,7 @@ def draw_write(rnd, old):
     return rnd.choice(WRITE_POOL)
 
 
-EVAL_FORMS = ('cell', 'cell', 'cell', 'cell', 'range', 'range', 'list', 'tuple', 'gen',
+EVAL_FORMS = ('cell', 'cell', 'cell', 'cell', 'range', 'range', 'list', 'tuple', 'gen', 'nested',
               'nosheet', 'obj')
 
 
